@@ -360,7 +360,6 @@ func (s *Sim) resetDelivered(rec *ResetRec) {
 				continue
 			}
 			// held by a settled client and loaded
-			held := false
 			for _, c := range s.Clients {
 				if c.State != "open" || c.Tainted != "" {
 					continue
@@ -369,13 +368,15 @@ func (s *Sim) resetDelivered(rec *ResetRec) {
 					if h.Kind == 'e' || h.Deleted || h.iv == nil || h.iv.StartCut >= s.Cut {
 						continue
 					}
-					if _, vv := s.W.lookup(c.expandCID(rid)); vv == v {
-						held = true
+					full := c.expandCID(rid)
+					if _, vv := s.W.lookup(full); vv == v && rec.Quiet {
+						ck := nq
+						if !res.IsQuery {
+							_, ck = splitRID(full)
+						}
+						rec.Must[name+"?"+ck] = true
 					}
 				}
-			}
-			if held && rec.Quiet {
-				rec.Must[name+"?"+nq] = true
 			}
 		}
 	}
@@ -406,32 +407,150 @@ func (s *Sim) allDelivered() bool {
 	return true
 }
 
-// isRefetch: get request r was sent while some client held the very resource
-// it asks for, and an earlier get under the same event subscription had
-// delivered it: a resource that is held is cached, so this cannot be an
-// initial fetch. Call with s.mu held.
-func (s *Sim) isRefetch(r *Req) bool {
-	if r.Type != "get" {
-		return false
-	}
-	prior := false
-	for _, q := range s.tr.reqs {
-		if q != r && q.Type == "get" && q.Name == r.Name && q.SubGen == r.SubGen && q.Delivered && q.DlvSeq < r.Seq && q.GotData {
-			prior = true
-		}
-	}
-	if !prior {
-		return false
-	}
+// refetchClass decides, when get request r reaches the seam, whether it is a
+// system-reset re-fetch of a cached resource (2), the load of a resource the
+// gateway does not have (0), or undecidable from outside (1). Call with s.mu
+// held.
+//
+// The cache entry of a non-query resource lives as long as the event
+// subscription does, so replaying the earlier get requests of the same
+// subscription generation decides it. A query variant is dropped as soon as
+// its last subscriber leaves, which the gateway does on an internal queue: it
+// is certainly cached only while a settled direct subscriber holds it.
+func (s *Sim) refetchClass(r *Req) int8 {
 	res := s.W.Res[r.Name]
 	if res == nil || res.V == nil {
-		return false
+		return 0
 	}
 	v := res.V[r.Query]
+	if !res.IsQuery {
+		// without a query in the answer each raw query is a cache entry of its own
+		v = nil
+		if n, ok := res.normalise(r.Query); ok {
+			v = res.V[n]
+		}
+	}
 	if v == nil {
+		// a re-fetch carries the normalised query
+		return 0
+	}
+	type ev struct {
+		seq  uint64
+		q    *Req
+		send bool
+	}
+	var evs []ev
+	for _, q := range s.tr.reqs {
+		if q.Type != "get" || q.Name != r.Name || q.SubGen != r.SubGen || q.Seq > r.Seq {
+			continue
+		}
+		if n, ok := res.normalise(q.Query); !ok || n != v.Query {
+			continue
+		}
+		if !res.IsQuery && q.Query != r.Query {
+			continue
+		}
+		evs = append(evs, ev{q.Seq, q, true})
+		if q.Delivered && q.DlvSeq < r.Seq {
+			evs = append(evs, ev{q.DlvSeq, q, false})
+		}
+	}
+	sort.Slice(evs, func(i, j int) bool { return evs[i].seq < evs[j].seq })
+	// loaded: the normalised variant is cached. initial: loads in flight; a get
+	// whose query is not the normalised one is always such a load (a re-fetch
+	// carries the normalised query).
+	loaded := false
+	initial := map[*Req]bool{}
+	refetch := map[*Req]bool{}
+	for _, e := range evs {
+		if e.send {
+			if (res.IsQuery && e.q.Query != v.Query) || (!loaded && len(initial) == 0) {
+				initial[e.q] = true
+			} else {
+				refetch[e.q] = true
+			}
+			continue
+		}
+		if initial[e.q] {
+			delete(initial, e.q)
+			if e.q.GotData {
+				loaded = true
+			}
+		} else if refetch[e.q] && e.q.NotFound {
+			loaded = false
+		}
+	}
+	for _, e := range v.Stream {
+		// a delete event drops the cached resource as well
+		if e.Kind == "delete" && !e.Derived && e.DlvCut >= 0 && e.DlvSeq < r.Seq {
+			return 0
+		}
+	}
+	if !refetch[r] {
+		return 0
+	}
+	if !res.IsQuery {
+		return 2
+	}
+	if s.certainlyHeld(v) {
+		return 2
+	}
+	return 1
+}
+
+// isRefetch: r is certainly a reset re-fetch.
+func (s *Sim) isRefetch(r *Req) bool { return r.Type == "get" && r.Rf == 2 }
+
+// certainlyHeld: right now some connection is a registered subscriber of
+// variant v in the gateway's cache whatever the gateway's internal queues hold:
+// an open, untainted client with a settled direct subscription to it, no
+// unsubscribe request for it in flight and no refused access check since.
+func (s *Sim) certainlyHeld(v *Variant) bool {
+	for _, c := range s.Clients {
+		if c.State != "open" || c.Tainted != "" {
+			continue
+		}
+	rids:
+		for _, rid := range sortedKeys(c.Direct) {
+			if c.Direct[rid] <= 0 {
+				continue
+			}
+			h := c.Cache[rid]
+			if h == nil || h.Kind == 'e' || h.Deleted || h.iv == nil || h.iv.Closed {
+				continue
+			}
+			name, _ := splitRID(c.expandCID(rid))
+			if _, vv := s.W.lookup(c.expandCID(rid)); vv != v {
+				continue
+			}
+			for _, q := range c.ReqL {
+				if q.Resp == nil && q.Action == "unsubscribe" && q.RID == rid {
+					continue rids
+				}
+			}
+			for _, q := range s.tr.reqs {
+				if q.Type == "access" && q.CIdx == c.CIdx && q.Name == name && q.Seq > h.iv.StartSeq && q.Answered && !accessGrantsGet(q.Outcome) {
+					continue rids
+				}
+			}
+			return true
+		}
+	}
+	return false
+}
+
+func accessGrantsGet(outcome string) bool {
+	if !strings.HasPrefix(outcome, "acc:") {
 		return false
 	}
-	return s.heldAt(v, r.Seq)
+	o := strings.TrimPrefix(outcome, "acc:")
+	if i := strings.Index(o, "|meta:"); i >= 0 {
+		o = o[:i]
+	}
+	var a struct {
+		Get bool `json:"get"`
+	}
+	return json.Unmarshal([]byte(o), &a) == nil && a.Get
 }
 
 // heldAt: some client held variant v at sequence number seq.
@@ -483,6 +602,10 @@ func (s *Sim) resetQuiescence() {
 		if res == nil {
 			continue
 		}
+		if res.V != nil && s.unsure[res.V[k.q]] {
+			s.stat("exempt.unsure_query_variant", 1)
+			continue
+		}
 		if res.IsQuery && res.V[k.q] == nil {
 			s.violate("C12", "a", "refetch-unnormalised-query", "re-fetch %s carries query %q which is not a normalised query of %s", rs[0].ID, k.q, k.name)
 			continue
@@ -516,6 +639,9 @@ func (s *Sim) resetQuiescence() {
 			i := strings.IndexByte(vk, '?')
 			k := key{vk[:i], vk[i+1:]}
 			found := false
+			if res := s.W.Res[k.name]; res != nil && res.V != nil && s.unsure[res.V[k.q]] {
+				found = true
+			}
 			for _, r := range refetch[k] {
 				if r.Seq > rec.DlvSeq {
 					found = true
@@ -553,7 +679,7 @@ type RefetchRec struct {
 // refetchQuiescence is C12.d: unchanged content yields no frame.
 func (s *Sim) refetchQuiescence() {
 	for _, rf := range s.Refetches {
-		if !rf.Same || !rf.Req.Delivered {
+		if !rf.Same || !rf.Req.Delivered || s.unsure[rf.V] {
 			continue
 		}
 		// no other announcement for this variant after the answer
